@@ -701,10 +701,17 @@ class VcfZarrWriter:
 
         final_path = self.partition_path(partition_index)
         logger.info(f"Finalising {partition_index} at {final_path}")
+        stale_path = self.partitions_path / f"stale_p{partition_index}"
+        if stale_path.exists():
+            shutil.rmtree(stale_path)
         if final_path.exists():
             logger.warning(f"Removing existing partition at {final_path}")
-            shutil.rmtree(final_path)
+            # Move aside atomically: a partly deleted partition must never be
+            # mistaken for a complete one by finalise
+            os.rename(final_path, stale_path)
         os.rename(partition_path, final_path)
+        if stale_path.exists():
+            shutil.rmtree(stale_path)
 
     def init_partition_array(self, partition_index, name):
         # Create an empty array like the definition
